@@ -1310,8 +1310,10 @@ Definition enc_cell_spec (t : ctype) (c : cell) : option bytes :=
 Definition EncCell (t : ctype) (c : cell) (b : bytes) : Prop := enc_cell_spec t c = Some b.
 
 (* a list / set whose elements are [bytes] items that may be null.  "[bytes]: ... if n < 0 no byte
-   should follow and the value represented is null": the -2 that a MaybeUnset element writes is
-   such a null. *)
+   should follow and the value represented is null".  The protocol text says no more than that
+   about negative lengths inside a collection; that a NOT-SET element is written as [int] -2 is
+   taken from the CODE (CellWriter::set_unset), so conformance of not-set elements holds by
+   construction of this line - only null (-1) and value elements are specified independently. *)
 Definition enc_seq_cells_spec (e : ctype) (cells : list cell) : option bytes :=
   option_map (fun body => spec_value (Some (Some (spec_int (Z.of_nat (List.length cells)) ++ body))))
     (opt_concat (map (fun c => match c with
